@@ -225,6 +225,19 @@ Definition vm_handle_id (clamp : bool) (H : bytes -> bytes) (net ns vm : bytes) 
   let net := match net with [] => default_network | _ => net end in
   gllid clamp H (net ++ t_vmi) (ns ++ dot :: vm) 128.
 
+(* felix/rules/rule_defs.go: the chains (and nftables maps) with fixed names, in the order the driver lists them *)
+Definition static_chains : list bytes := Eval compute in
+  map bs ["cali-INPUT"; "cali-FORWARD"; "cali-OUTPUT"; "cali-PREROUTING"; "cali-POSTROUTING";
+          "cali-untracked-flows"; "cali-untracked-policy"; "cali-failsafe-in"; "cali-failsafe-out";
+          "cali-nat-outgoing"; "cali-egress-dscp"; "cali-fip-dnat"; "cali-fip-snat"; "cali-cidr-block";
+          "cali-wl-to-host"; "cali-from-wl-dispatch"; "cali-to-wl-dispatch"; "cali-arp-dispatch";
+          "cali-to-host-endpoint"; "cali-from-host-endpoint"; "cali-to-hep-forward"; "cali-from-hep-forward";
+          "cali-set-endpoint-mark"; "cali-from-endpoint-mark"; "cali-forward-check"; "cali-forward-endpoint-mark";
+          "cali-wireguard-incoming-mark"; "cali-rpf-skip"; "cali-rpf"]%string.
+Definition pfx_arp : bytes := Eval compute in bs "cali-arp-".
+Definition arp_dispatch : bytes := Eval compute in bs "cali-arp-dispatch".
+Definition iface_dispatch : bytes := Eval compute in bs "dispatch".
+
 (* ---------- identities handed to the name builders ---------- *)
 
 Inductive set_src :=
@@ -245,7 +258,8 @@ Inductive ident :=
 | IdNflog (text : bytes)                                (* rules.maybeHash *)
 | IdNflogRule (action owner dir idx : N) (id : policy_id)   (* CalculateNFLOGPrefixStr *)
 | IdVeth (ns pod : bytes)                               (* VethNameForWorkload *)
-| IdVMHandle (net ns vm : bytes).                       (* CreateVMHandleID *)
+| IdVMHandle (net ns vm : bytes)                        (* CreateVMHandleID *)
+| IdStaticChain (k : nat).                              (* k-th fixed chain name of rule_defs.go *)
 
 Section ModelName.
   Variable clamp : bool.
@@ -274,5 +288,6 @@ Section ModelName.
     | IdNflogRule a o d i id => maybe_hash clamp H256 (nflog_rule_text a o d i id)
     | IdVeth ns pod => Some (veth_name H1 ns pod)
     | IdVMHandle net ns vm => vm_handle_id clamp H256 net ns vm
+    | IdStaticChain k => nth_error static_chains k
     end.
 End ModelName.
